@@ -593,7 +593,9 @@ func kindOfEntity(kinds map[string]string, entry string) string {
 	return "other"
 }
 
-// whatDiffers names the first top-level field of the entity's state that differs (IDs erased).
+// whatDiffers names what differs in an entity's payload once generated IDs are erased: the first
+// top-level state field and, for a list of records (transaction tables ...), the fields of the first
+// differing element; "[removed]" marks an element that is flagged removed (a dead slot).
 func whatDiffers(a, b []byte) string {
 	var x, y struct {
 		State     map[string]json.RawMessage `json:"state"`
@@ -608,9 +610,31 @@ func whatDiffers(a, b []byte) string {
 	}
 	sort.Strings(keys)
 	for _, k := range keys {
-		if !bytes.Equal(x.State[k], y.State[k]) {
-			return "state." + k
+		if bytes.Equal(x.State[k], y.State[k]) {
+			continue
 		}
+		what := "state." + k
+		var xs, ys []map[string]json.RawMessage
+		if json.Unmarshal(x.State[k], &xs) == nil && json.Unmarshal(y.State[k], &ys) == nil && len(xs) == len(ys) {
+			for i := range xs {
+				var fields []string
+				for f, v := range xs[i] {
+					if !bytes.Equal(v, ys[i][f]) {
+						fields = append(fields, f)
+					}
+				}
+				if len(fields) == 0 {
+					continue
+				}
+				sort.Strings(fields)
+				tag := "[]"
+				if string(xs[i]["removed"]) == "true" && string(ys[i]["removed"]) == "true" {
+					tag = "[removed]"
+				}
+				return what + tag + "." + strings.Join(fields, "+")
+			}
+		}
+		return what
 	}
 	if !bytes.Equal(x.Scheduler, y.Scheduler) {
 		return "scheduler"
@@ -934,6 +958,7 @@ func registerCkpt() {
 		})
 		events, exact, exactNoBuf, withBuf, withFlight, canons, withWork, exactIdle := 0, 0, 0, 0, 0, 0, 0, 0
 		var sample map[string]any
+		idsOnlyKept := 0
 		for j, r := range results {
 			events += r.suffix
 			if r.exact {
@@ -961,11 +986,18 @@ func registerCkpt() {
 				if m.Kind == "harness" {
 					return nil, fmt.Errorf("stack %d cut %d: %s", m.Stack, m.Cut, m.Detail)
 				}
-				if len(mm) < 300 {
-					cc := cases[m.Stack]
-					m.Case = &cc
-					mm = append(mm, m)
+				// keep every mismatch that goes beyond generated IDs, and a bounded number of the others
+				if m.Class == "ids_only" {
+					if idsOnlyKept >= 200 {
+						continue
+					}
+					idsOnlyKept++
+				} else if len(mm)-idsOnlyKept >= 200 {
+					continue
 				}
+				cc := cases[m.Stack]
+				m.Case = &cc
+				mm = append(mm, m)
 			}
 			if sample == nil && r.suffix > 3 && r.infl > 0 {
 				sample = map[string]any{"stack": cases[jobs[j].si].Stack.Describe(), "cut_ps": jobs[j].t, "requests_in_flight_at_cut": r.infl,
